@@ -10,7 +10,9 @@ impl Encoder {
         self.rr_address_family_number(&address.get_address_family_number());
         self.u8(ecs.get_source_prefix_length());
         self.u8(ecs.get_scope_prefix_length());
-        self.rr_address_with_prefix(address, ecs.get_prefix_length());
+        // RFC 7871 section 6: the address is truncated to the source prefix length.
+        let length = (usize::from(ecs.get_source_prefix_length()) + 7) / 8;
+        self.rr_address_with_length(address, length);
         self.set_length_index(length_index)
     }
 }
